@@ -222,7 +222,8 @@ func c17frames(env sched.Env) *sched.Report {
 // alphabet  requests admin | localconf | drain | terminate | unknown(99) ; sequences up to length 4/5;
 //           a first child that drops after k requests (k = 0..len) or mid-request (header only),
 //           or sends a malformed frame, or sends a request and is gone before its reply can be written,
-//           followed by a second child doing the full sequence; every type byte 0..255 that is not a request
+//           followed by a second child doing the full sequence; every type byte 0..255 that is not a request;
+//           a child connecting while accept fails with EMFILE (own process with a lowered descriptor limit)
 // oracle    one instance call per request, in request order; each acknowledged with the matching reply
 //           type; unknown -> unknown reply; the second child completes
 // ---------------------------------------------------------------------------
@@ -282,6 +283,73 @@ type c17seq struct {
 }
 
 var instSeq int
+
+// c17acceptErrorChild (own process: it plays with the descriptor limit): a child connects to the control socket
+// while the old process is out of file descriptors - accept fails with EMFILE, a temporary error -, gives up and
+// disappears; once descriptors are available again a later child must get its requests performed and acknowledged.
+func c17acceptErrorChild(in json.RawMessage) string {
+	inst := &scriptedInst{id: (os.Getpid()%100000)*10000 + 4242}
+	r, err := New(inst)
+	if err != nil {
+		return ""
+	}
+	defer r.Shutdown()
+	first, err := syscall.Socket(syscall.AF_UNIX, syscall.SOCK_STREAM|syscall.SOCK_CLOEXEC, 0)
+	if err != nil {
+		return ""
+	}
+	var old syscall.Rlimit
+	if syscall.Getrlimit(syscall.RLIMIT_NOFILE, &old) != nil {
+		return ""
+	}
+	lim := old
+	if lim.Cur > 256 {
+		lim.Cur = 256
+	}
+	if syscall.Setrlimit(syscall.RLIMIT_NOFILE, &lim) != nil {
+		return ""
+	}
+	var hogs []int
+	for {
+		fd, err := syscall.Open("/dev/null", syscall.O_RDONLY|syscall.O_CLOEXEC, 0)
+		if err == syscall.EINTR {
+			continue
+		}
+		if err != nil {
+			break
+		}
+		hogs = append(hogs, fd)
+	}
+	if err := syscall.Connect(first, &syscall.SockaddrUnix{Name: genDomainSocketName(inst.id)}); err != nil {
+		return ""
+	}
+	time.Sleep(400 * time.Millisecond) // several accept attempts fail meanwhile
+	syscall.Close(first)
+	for _, fd := range hogs {
+		syscall.Close(fd)
+	}
+	syscall.Setrlimit(syscall.RLIMIT_NOFILE, &old)
+	time.Sleep(300 * time.Millisecond)
+	c, err := net.DialUnix("unix", nil, &net.UnixAddr{Name: genDomainSocketName(inst.id), Net: "unix"})
+	if err != nil {
+		return "later-child-cannot-connect / after accept ran out of descriptors"
+	}
+	defer c.Close()
+	for _, k := range []reqKind{reqKinds[0], reqKinds[2]} {
+		if err := sendMessage(c, &message{Type: k.typ}); err != nil {
+			return "send-failed / after accept ran out of descriptors"
+		}
+		c.SetReadDeadline(time.Now().Add(5 * time.Second))
+		m, err := readMessage(c)
+		if err != nil || m.Type != k.reply {
+			return "no-acknowledgement / " + k.name + " / after accept ran out of descriptors"
+		}
+	}
+	if calls := inst.snapshot(); len(calls) != 2 {
+		return "steps-differ-from-requests / after accept ran out of descriptors"
+	}
+	return ""
+}
 
 func c17typeClass(t int) string {
 	switch {
@@ -457,6 +525,13 @@ func c17sequences(env sched.Env) *sched.Report {
 	if env.Shard == 0 {
 		rep.Execs++
 		sched.Progress(nil)
+		acs := c17seq{Drop: "accept-error"}
+		if res := sched.RunIsolated("C17/handover", acs, 60*time.Second, 1024); res.Sig != "" {
+			sigs[res.Sig] = true
+			rep.Violations = append(rep.Violations, sched.CustomViolation("C17/handover", res.Sig, res.Detail, acs))
+		}
+		rep.Execs++
+		sched.Progress(nil)
 		cs := c17seq{Drop: "alltypes"}
 		if sig, detail := c17handover(cs); sig != "" {
 			sigs[sig] = true
@@ -539,7 +614,7 @@ func init() {
 		}
 		return []sched.Failure{{Sig: sig, Detail: detail}}
 	}})
-	sched.Register(&sched.Scenario{Name: "C17/handover", Custom: c17sequences, ReplayCustom: func(in json.RawMessage) []sched.Failure {
+	sched.Register(&sched.Scenario{Name: "C17/handover", Custom: c17sequences, Child: c17acceptErrorChild, ReplayCustom: func(in json.RawMessage) []sched.Failure {
 		var cs c17seq
 		json.Unmarshal(in, &cs)
 		sig, detail := c17handover(cs)
